@@ -27,7 +27,7 @@ RULE = ('fates = exit codes 0..255 and terminating signals; the child is a puppe
 ASSUMPTIONS = ['/proc/<pid>/stat field 52 of a zombie is its raw wait status',
                'wait() is only issued once /proc shows the child has exited (it would otherwise block by design)']
 REQUIRED = ['observations', 'preludes', 'proc_crosschecks', 'pty_cases', 'popen_cases', 'run_cases', 'signal_fates', 'exit_fates',
-            'repeat_observations', 'inflicted_cases']
+            'repeat_observations', 'inflicted_cases', 'run_stopped_before_child_exit']
 
 SIGNALS = [1, 2, 3, 6, 9, 10, 12, 13, 14, 15, 24, 25, 26, 27, 29, 30, 31, 34, 40, 64, 4, 8, 11, 7, 5]
 PATHS = ['isalive', 'wait', 'close', 'terminate', 'eof-isalive', 'eof-wait', 'eof-close', 'read-eof-isalive',
@@ -62,6 +62,8 @@ def plan(tier, seed):
         for p in ('wait', 'eof-wait', 'kill-wait', 'kill-kill-wait'):
             cases.append({'tr': 'popen', 'fate': f, 'path': p})
         cases.append({'tr': 'run', 'fate': f, 'path': 'run', 'u': (f[1] % 2 == 0)})
+        if f[0] == 'exit' and (tier == 'thorough' or f[1] % 3 == 1):
+            cases.append({'tr': 'run', 'fate': f, 'path': 'run', 'u': (f[1] % 2 == 1), 'stop': ['callback', 'timeout'][f[1] % 2]})
     for rep in range(3 if tier == 'quick' else 40):
         for op in INFLICT:
             for disp in ('normal', 'ignhup', 'ignhuponly'):
@@ -409,7 +411,21 @@ def run_case(case, acc):
                "signal.signal(%d, signal.SIG_DFL) if %d not in (9, 19) else None; os.kill(os.getpid(), %d)'"
                % (sys.executable, fate[1], fate[1], fate[1]))
     fn = pexpect.runu if case.get('u') else pexpect.run
-    out, st = fn(cmd, withexitstatus=True, timeout=10)
+    how = case.get('stop', 'eof')
+    if how != 'eof' and fate[0] == 'exit':
+        # run() ends before the child does - stopped by a callback that returns True, or by the timeout - and the
+        # child exits with its code when run() closes the terminal (SIGHUP handler): the status that run() hands
+        # back must be that code
+        acc.count('run_stopped_before_child_exit')
+        prog = ("import os,signal,sys,time; signal.signal(signal.SIGHUP, lambda *a: os._exit(%d)); "
+                "sys.stdout.write(\"out\"); sys.stdout.flush(); time.sleep(30)" % fate[1])
+        cmd = "%s -S -c '%s'" % (sys.executable, prog)
+        if how == 'callback':
+            out, st = fn(cmd, withexitstatus=True, timeout=10, events=[('out', lambda d: True)])
+        else:
+            out, st = fn(cmd, withexitstatus=True, timeout=0.5)
+    else:
+        out, st = fn(cmd, withexitstatus=True, timeout=10)
     acc.count('observations')
     want_out = 'out' if case.get('u') else b'out'
     if out != want_out:
